@@ -90,10 +90,15 @@ CHECKS["C05"] = {
             "PartialEq, by re-encoded bytes and by basis (so the recomputed G is compared); then, only if the round trip was "
             "equal, 5 messages of varying shape are signed with the DECODED key (seeded honest randomness, logical-step "
             "progress bound) and each signature must have the right length, survive its own round trip and be accepted by "
-            "verify and by the reference verifier under the ORIGINAL public key. distinct_nontrivial = distinct seeds whose "
-            "key completed the round-trip comparison.",
-    "assumptions": ["reference key encoders in harness/src/refs/spec.rs", "seeds not generated are not covered (rare events below ~1/keys explored are invisible)"],
-    "legs": [{"name": "roundtrip"}],
+            "verify and by the reference verifier under the ORIGINAL public key. Second leg, boundary-steered keys: from a generated (f,g,F,G), "
+            "(F + k f, G + k g) with k = c x^j is another completion of the same (f,g) with the same public key and the same "
+            "tree leaves; k is searched so that the extreme coefficient of F' or G' is EXACTLY +127 / -127 (the edge of the "
+            "8-bit field, which generated keys reach about once in 10^4 seeds); the reference encoding of such a key must "
+            "decode, re-encode identically, give the same basis (incl. recomputed G') and public key, and sign. "
+            "distinct_nontrivial = distinct seeds whose key completed the round-trip comparison + distinct boundary keys.",
+    "assumptions": ["reference key encoders in harness/src/refs/spec.rs", "seeds not generated are not covered (rare events below ~1/keys explored are invisible)",
+                    "boundary leg assumes a decoder must accept every valid NTRU completion whose coefficients fit the format (these keys have the same quality as the generated one)"],
+    "legs": [{"name": "roundtrip"}, {"name": "boundary-keys"}],
     "technique": "round-trip invariant monitor over generated keys (hook: read-only basis accessor) with regression seeds, reference encoder and reference verifier as oracles",
     "level_text": "Every generated key and signature is pushed through encode/decode and compared at byte, object and basis level; the decoded key is exercised by signing.",
     "level_note": "quantifier over 2^256 seeds is sampled (about 280 keys quick, about 18000 thorough)",
